@@ -30,6 +30,10 @@ pub struct Config {
     pub weak: bool,
     /// C08: mutators probe is_mmtk_object / find_object_from_internal_pointer on their objects
     pub lookups: bool,
+    /// C31: probe the SFT map / VM map / is_in_mmtk_spaces at pause ends
+    pub resolve: bool,
+    /// C34: check Immix line marks and hole search at pause ends
+    pub lines: bool,
     pub finalizers: bool,
     pub ephemerons: bool,
     pub log_events: bool,
@@ -74,6 +78,8 @@ impl Config {
             pin_roots: a.flag("pin-roots"),
             weak: a.flag("weak"),
             lookups: a.flag("lookups"),
+            resolve: a.flag("resolve"),
+            lines: a.flag("lines"),
             finalizers: a.flag("finalizers"),
             ephemerons: a.flag("ephemerons"),
             log_events: a.flag("events"),
